@@ -6,13 +6,46 @@ set_option linter.unusedSectionVars false
 
 variable {C P : Type} [DecidableEq C] [DecidableEq P]
 
-theorem upd_apply {α : Type} (f : C → α) (c : C) (v : α) (c' : C) :
-    upd f c v c' = if c' = c then v else f c' := rfl
+theorem lookupE_filter_ne {α : Type} (c c' : C) (l : List (C × α)) :
+    lookupE c' (l.filter (fun e => decide (e.1 ≠ c))) = if c' = c then none else lookupE c' l := by
+  induction l with
+  | nil => simp [lookupE]
+  | cons e l ih =>
+    obtain ⟨k, v⟩ := e
+    by_cases hk : k = c
+    · rw [List.filter_cons_of_neg (by simp [hk]), ih]
+      simp only [lookupE]
+      by_cases h : c' = c
+      · simp [h]
+      · rw [if_neg h, if_neg h, if_neg (fun e => h (by rw [← e, hk]))]
+    · rw [List.filter_cons_of_pos (by simp [hk])]
+      simp only [lookupE]
+      by_cases h : k = c'
+      · rw [if_pos h, if_pos h, if_neg (fun e => hk (by rw [h, e]))]
+      · rw [if_neg h, if_neg h, ih]
 
-@[simp] theorem upd_same {α : Type} (f : C → α) (c : C) (v : α) : upd f c v c = v := by simp [upd]
+theorem upd_apply {α : Type} (f : Tab C α) (c : C) (v : Option α) (c' : C) :
+    upd f c v c' = if c' = c then v else f c' := by
+  cases v with
+  | none =>
+    show lookupE c' _ = _
+    simp only [upd, Option.toList, List.map_nil, List.nil_append]
+    rw [lookupE_filter_ne]
+    split <;> rfl
+  | some a =>
+    show lookupE c' _ = _
+    simp only [upd, Option.toList, List.map_cons, List.map_nil, List.cons_append, List.nil_append, lookupE]
+    by_cases h : c' = c
+    · subst h; simp
+    · rw [if_neg (fun e => h e.symm), if_neg h, lookupE_filter_ne, if_neg h]; rfl
 
-theorem upd_ne {α : Type} (f : C → α) {c c' : C} (v : α) (h : c' ≠ c) : upd f c v c' = f c' := by
-  simp [upd, h]
+@[simp] theorem upd_same {α : Type} (f : Tab C α) (c : C) (v : Option α) : upd f c v c = v := by
+  simp [upd_apply]
+
+theorem upd_ne {α : Type} (f : Tab C α) {c c' : C} (v : Option α) (h : c' ≠ c) : upd f c v c' = f c' := by
+  simp [upd_apply, h]
+
+@[simp] theorem tab_empty_apply {α : Type} (c : C) : (({} : Tab C α) : C → Option α) c = none := rfl
 
 theorem run_snoc (cfg : Config) (tr : List (Step C P)) (st : Step C P) (s : State C P) :
     run cfg (tr ++ [st]) s = step cfg (run cfg tr s) st := by
